@@ -2,6 +2,7 @@
 from __future__ import annotations
 
 import copy
+import json
 import os
 import re
 import subprocess
@@ -27,7 +28,7 @@ TIERS = {
     "quick": {"examples": 8000, "sets_per_doc": 3, "corpus_sets": 8, "budget_s": 110},
     "thorough": {"examples": 80000, "sets_per_doc": 4, "corpus_sets": 120, "budget_s": 1800, "second_interp": 40},
 }
-PARTS = ["corpus_part", "search"]
+PARTS = ["corpus_part", "search", "cross_process"]
 
 
 def bucket(stage, o, detail):
@@ -199,7 +200,56 @@ def second_interpreter(acc, n):
                                    "search": "second_interpreter", "shard": 0, "round": 0, "seed": env.verif_seed(), "tier": "thorough"})
 
 
+CROSS_DOCS = [
+    "MAP\n  NAME 'm'\n  PROJECTION\n    'init=epsg:4326'\n  END\n  WEB\n    METADATA\n      'a' 'b'\n    END\n  END\n  EXTENT 0 0 1 1\n  LEGEND\n    STATUS ON\n  END\n"
+    "  SCALEBAR\n    STATUS ON\n  END\n  OUTPUTFORMAT\n    NAME 'png'\n  END\n  SYMBOL\n    NAME 's'\n    TYPE ELLIPSE\n    POINTS\n      1 1\n    END\n  END\n"
+    "  LAYER\n    NAME 'l'\n    TYPE POINT\n    METADATA\n      'k' 'v'\n    END\n    CLASS\n      STYLE\n        COLOR 1 2 3\n      END\n      LABEL\n        SIZE 8\n      END\n      NAME 'c'\n    END\n    STATUS ON\n  END\n  DEBUG 1\nEND\n",
+    "LAYER\n  CLASS\n    LABEL\n    END\n    STYLE\n    END\n    LEADER\n    END\n    NAME 'x'\n  END\n  PROJECTION\n    AUTO\n  END\n  FEATURE\n    POINTS\n      0 0\n    END\n  END\n  TYPE POINT\n  VALIDATION\n    'q' 'r'\n  END\nEND\n",
+]
+
+
+def cross_process_case(text, o, hashseed):
+    """the same text and options in another interpreter (other string-hash seed): the same characters"""
+    import subprocess
+    import sys
+
+    W = env.Workers.get()
+    here = W.PrettyPrinter(**o).pprint(W.loads(text))
+    code = ("import sys, json; sys.path.insert(0, %r); import mappyfile; o = json.loads(sys.argv[1]); "
+            "sys.stdout.buffer.write(mappyfile.dumps(mappyfile.loads(sys.stdin.read(), expand_includes=False), **o).encode('utf-8'))" % env.REPO)
+    e = dict(os.environ, PYTHONHASHSEED=str(hashseed))
+    e.pop("PYTHONPATH", None)
+    r = subprocess.run([sys.executable, "-c", code, json.dumps(o)], input=text.encode("utf-8"), capture_output=True, env=e, timeout=300)
+    case = {"cross_text": text, "options": o, "hashseed": hashseed}
+    if r.returncode != 0:
+        return [Discrepancy("cross_process:failed", f"formatting in a second interpreter failed: {r.stderr.decode('utf-8', 'replace')[-200:]}", case)]
+    there = r.stdout.decode("utf-8")
+    if there != here:
+        return [Discrepancy("cross_process:differs", f"the same text and options give different output in another interpreter (PYTHONHASHSEED={hashseed}): {first_diff(here, there)}", case)]
+    return []
+
+
+def cross_process(acc: Acc, tier, shard, nshards):
+    opts = [dict(options.DEFAULT, separate_complex_types=True), dict(options.DEFAULT, separate_complex_types=True, align_values=True, end_comment=True), dict(options.DEFAULT)]
+    seeds = (1, 2) if tier == "quick" else (1, 2, 3, 5, 8, 13, 21, 34)
+    idx = 0
+    for text in CROSS_DOCS:
+        for o in opts:
+            for hs in seeds:
+                idx += 1
+                if idx % nshards != shard:
+                    continue
+                acc.evaluations += 1
+                acc.nontrivial.add(env.fp(["cross", text, optkey(o), hs]))
+                acc.cls("cross_process_runs")
+                for dd in cross_process_case(text, o, hs):
+                    if not any(v["bucket"] == dd.bucket for v in acc.violations):
+                        acc.violations.append({**dd.as_dict(), "search": "cross_process", "shard": shard, "round": 0, "seed": env.verif_seed(), "tier": tier})
+
+
 def replay(case):
+    if "cross_text" in case:
+        return cross_process_case(case["cross_text"], case["options"], case["hashseed"])
     W = env.Workers.get()
     text = corpus.read(os.path.join(env.REPO, case["file"])) if "file" in case else case["text"]
     return check_normal_form(W.loads(text), case["options"], case, between=case.get("between"))
